@@ -867,6 +867,18 @@ static V dec_v(std::string const& s)
   return v;
 }
 
+
+// the cached entry of a template: (format string, keys) — read through whichever shape the entry has (a pair today),
+// so that a change of its layout does not take the whole harness down with it
+template <typename T>
+static auto cache_fmt(T const& v, int) -> decltype((v.first)) { return v.first; }
+template <typename T>
+static auto cache_keys(T const& v, int) -> decltype((v.second)) { return v.second; }
+template <typename T>
+static auto const& cache_fmt(T const& v, long) { auto const& [a, b, c] = v; (void)b; (void)c; return a; }
+template <typename T>
+static auto const& cache_keys(T const& v, long) { auto const& [a, b, c] = v; (void)a; (void)c; return b; }
+
 struct E2E
 {
   ManualBackendWorker* mw{nullptr};
@@ -917,7 +929,7 @@ struct E2E
     std::vector<std::string> ents;
     for (auto const& kv : bw->_named_args_templates)
     {
-      ents.push_back(hex_or_dash(kv.first) + ":" + hex_or_dash(kv.second.first) + ":" + enc_keys(kv.second.second));
+      ents.push_back(hex_or_dash(kv.first) + ":" + hex_or_dash(cache_fmt(kv.second, 0)) + ":" + enc_keys(cache_keys(kv.second, 0)));
     }
     std::sort(ents.begin(), ents.end());
     std::cout << "cache-dump =>";
